@@ -577,6 +577,38 @@ namespace hv
             return wire<C1<>>(w, b, Int{id.value() * 10 + 3}, Int{0});
         }
     };
+    struct SgFailT
+    {   // a fault target (id*10+1) followed, in the same child, by an independent self-scheduling sibling (Timer1 id*10+2)
+        // whose timer may be due in the very cycle in which the target throws
+        static constexpr auto name = "hv_sg_fail_t";
+        static SP compose(Wiring &w, SP x, Scalar<"p", Int> p, Scalar<"q", Int> q, Scalar<"id", Int> id)
+        {
+            auto a = wire<C1<>>(w, x, Int{id.value() * 10 + 1}, Int{0});
+            auto t = wire<Timer1>(w, x, Int{id.value() * 10 + 2});        // scheduler-scripted (tscript id*10+2), also driven by x
+            return wire<C2<InputValidity::Unchecked, InputValidity::Unchecked>>(w, a, t, Int{id.value() * 10 + 3}, Int{0});
+        }
+    };
+    // (4) a wake-up asked for through the stateless SingleShotScheduler in start(), on a node that also has an active input
+    struct SShot
+    {
+        static constexpr auto name = "hv_sshot";
+        static void start(Scalar<"id", Int> id, Scalar<"at", Int> when, SingleShotScheduler s)
+        {
+            u_start(id.value());
+            s.schedule(at(when.value()));
+            Line("req").i("id", id.value()).i("t", off(s.now())).i("when", when.value()).b("in_start", true).emit();
+        }
+        static void stop(Scalar<"id", Int> id) { u_stop(id.value()); }
+        static void eval(In<"a", TS<Int>, InputValidity::Unchecked> a, Scalar<"id", Int> id, Scalar<"at", Int> when, DateTime now, Out<TS<Int>> out)
+        {
+            InLog il;
+            il.add(a);
+            u_eval(id.value(), now, il.done());
+            const long long v = norm((a.valid() ? a.value() : 0) + (off(now) == when.value() ? 1000 : 0));
+            out.set(Int{v});
+            u_out(id.value(), now, v);
+        }
+    };
     struct SgCtx
     {   // the same definition with equal scalars applied to the declared input #0 and to a port imported from the enclosing
         // context (capture #0): two nodes that differ only in that input
